@@ -106,7 +106,17 @@ def run(c):
         fn = {"mean_diff": Experiment.TestFunc.mean_diff, "ttest": Experiment.TestFunc.ttest, "anova": Experiment.TestFunc.one_way_anova}[c["fn"]]
         r = guarded(lambda: float(fn(e, c["idx"])))
         r2 = guarded(lambda: float(Experiment.make_test_array(fn, [0, 1])[c["idx"]](e)))
-        return {"r": list(r), "via_array": list(r2)}
+        # index lists in any order, with repetitions: make_test_array(func, indices)[i](data) = func(data, indices[i])
+        ilists = [[1, 0], [1, 1, 0], [0, 0], [1], [0, 1, 0, 1]]
+        arr_ok = []
+        for il in ilists:
+            ta = guarded(lambda: Experiment.make_test_array(fn, il))
+            if ta[0] != "ok":
+                arr_ok.append([il, list(ta)[:2]]); continue
+            vals = [list(guarded(lambda t=t: float(t(e)))) for t in ta[1]]
+            direct = [list(guarded(lambda i=i: float(fn(e, i)))) for i in il]
+            arr_ok.append([il, vals, direct])
+        return {"r": list(r), "via_array": list(r2), "index_lists": arr_ok}
     if f == "types":
         e = Experiment(group=[0, 1, 0, 1], response=[[1], [2], [3], [4]])
         t = Experiment.make_test_array(Experiment.TestFunc.mean_diff, [0])
@@ -145,10 +155,14 @@ def run(c):
             e.randomize(in_place=True, seed=seed); return [int(v) for v in e.group]
         if what == "randomize_copy":
             e2 = e.randomize(in_place=False, seed=seed); return [[int(v) for v in e2.group], [int(v) for v in e.group]]
+        if what == "sim_npc_copy":
+            r = NPC.sim_npc(e, tests * 2, reps=3, seed=seed, in_place=False); return [float(r[0]), [float(v) for v in r[2]], [int(v) for v in e.group]]
+        if what == "westfall_young_copy":
+            r = NPC.westfall_young(e, tests, reps=3, seed=seed, in_place=False); return [[float(v) for v in r[0]], [float(v) for v in r[1]], [int(v) for v in e.group]]
         if what == "sim_npc":
             r = NPC.sim_npc(e, tests * 2, reps=3, seed=seed, in_place=True); return [float(r[0]), [int(v) for v in e.group]]
         r = NPC.westfall_young(e, tests, reps=3, seed=seed, in_place=True); return [[float(v) for v in r[0]], [int(v) for v in e.group]]
-    for what in ("randomize", "randomize_copy", "sim_npc", "westfall_young"):
+    for what in ("randomize", "randomize_copy", "sim_npc_copy", "westfall_young_copy", "sim_npc", "westfall_young"):
         s = c["seed"] + 7 if c["seed"] != 100 else 0       # seed 0 is a seed like any other
         r1 = guarded(lambda: from_start(what, s))
         r2 = guarded(lambda: from_start(what, s))
@@ -156,7 +170,17 @@ def run(c):
         r3 = guarded(lambda: from_start(what, s))
         from cryptorandom.cryptorandom import SHA256 as _SHA
         r4 = guarded(lambda: from_start(what, _SHA(s)))
-        same.append([what, list(r1), list(r2), list(r3), list(r4)])
+        ent = [what, list(r1), list(r2), list(r3), list(r4)]
+        if what.endswith("_copy"):
+            # two more seeded calls WITHOUT touching the Experiment in between: in_place=False leaves no trace, so they agree with r1
+            def again():
+                if what == "randomize_copy":
+                    e2 = e.randomize(in_place=False, seed=s); return [[int(v) for v in e2.group], [int(v) for v in e.group]]
+                if what == "sim_npc_copy":
+                    r = NPC.sim_npc(e, tests * 2, reps=3, seed=s, in_place=False); return [float(r[0]), [float(v) for v in r[2]], [int(v) for v in e.group]]
+                r = NPC.westfall_young(e, tests, reps=3, seed=s, in_place=False); return [[float(v) for v in r[0]], [float(v) for v in r[1]], [int(v) for v in e.group]]
+            ent.append([list(guarded(again)), list(guarded(again))])
+        same.append(ent)
     return {"outs": outs, "same": same}
 
 
@@ -239,11 +263,16 @@ def oracle(c, o):
             return {"why": f"seeded randomize / sim_npc / westfall_young from the same assignment differ between two runs: {a} vs {b}", "cls": "experiment:irreproducible"}
         if not a[6] or not b[6]:
             return {"why": "a seeded sim_npc / westfall_young call advanced numpy's global random state", "cls": "experiment:global-rng"}
-        for what, r1, r2, r3, r4 in o.get("same", []):
+        for ent in o.get("same", []):
+            what, r1, r2, r3, r4 = ent[:5]
+            if len(ent) > 5 and any(x != r1 for x in ent[5]):
+                return {"why": f"{what}(seed={c['seed'] + 7}): repeated seeded calls on the same, untouched Experiment give {r1[1]}, then {[x[1] for x in ent[5]]}", "cls": "experiment:irreproducible"}
             if r1[0] != "ok":
                 return {"why": f"{what}(in_place=True, seed=...) raised {r1}", "cls": "experiment:raises"}
             if not (r1 == r2 == r3):
                 return {"why": f"{what}(seed={c['seed'] + 7}) repeated on the same Experiment from the same assignment gives {r1[1]}, {r2[1]}, then (after an unseeded randomize) {r3[1]}", "cls": "experiment:irreproducible"}
+            if what.endswith("_copy") and r1[0] == "ok" and r1[1][-1] != [0, 1, 0, 1, 1, 0]:
+                return {"why": f"{what}(in_place=False) changed the caller's group assignment to {r1[1][-1]}", "cls": "experiment:in-place-false-mutates"}
             if r1 != r4:
                 return {"why": f"{what}: int seed {c['seed'] + 7} gives {r1[1]} but a fresh SHA256 generator with that seed {r4[1]}", "cls": "experiment:int-vs-sha256"}
         return None
@@ -269,6 +298,10 @@ def oracle(c, o):
         v = o["via_array"]
         if v[0] != "ok" or not ((math.isnan(v[1]) and math.isnan(r[1])) or v[1] == r[1]):
             return {"why": f"make_test_array(func, indices)[i](data) = {v} differs from func(data, indices[i]) = {r}", "cls": "testfunc:make_test_array"}
+        for ent in o.get("index_lists", []):
+            same = lambda a, b: a == b or (a[0] == b[0] == "ok" and math.isnan(a[1]) and math.isnan(b[1])) or (a[0] == b[0] == "exc" and a[1] == b[1])
+            if len(ent) == 2 or len(ent[1]) != len(ent[0]) or any(not same(a[:2], b[:2]) for a, b in zip(ent[1], ent[2])):
+                return {"why": f"make_test_array({c['fn']}, {ent[0]}) gives {ent[1:2]}, func(data, indices[i]) gives {ent[2:] if len(ent) > 2 else None}", "cls": "testfunc:make_test_array"}
         return None
     g0 = c["g"]
     for k, pr in enumerate(o.get("probes", [])):
